@@ -174,6 +174,8 @@ class Lib:
         raise OutOfReach(f"subscript of {v!r}")
 
     def getslice(self, ex, v, lo, hi, step):
+        if step == -1 and hi is None and isinstance(v, SymList):
+            return RevSlice(ex, v, lo)
         if step is not None and step != 1:
             hook = ex.opt.get("getslice_step")
             if hook is not None:
@@ -388,6 +390,23 @@ class Lib:
         if isinstance(cm, CtxPair):
             return cm.enter, cm.exit
         raise OutOfReach(f"with-statement on {cm!r}")
+
+
+class RevSlice:
+    """lst[start::-1] of a list of unknown length, with Python's clamping:
+    elements lst[s], lst[s-1], ..., lst[0] where s = min(start, len-1)
+    (start < 0 counts from the end; an empty result if s < 0)"""
+
+    def __init__(self, ex, lst, start):
+        self.lst = lst
+        n = lst.length
+        if start is None:
+            s = n - 1
+        else:
+            st = lift_int(start)
+            st = z3.If(st < 0, st + n, st)
+            s = z3.If(st >= n, n - 1, st)     # may be -1: empty
+        self.top = z3.simplify(s)
 
 
 class SymItems:
@@ -1059,6 +1078,25 @@ def _pl_sort(ex, l, key=None, reverse=False):
     if hook is not None:
         return hook(ex, l, key, reverse)
     raise OutOfReach("list.sort")
+
+
+@method_of(("RevSlice", "index"))
+def _rs_index(ex, rs, value):
+    """first position of `value` in the reversed slice (list.index)"""
+    lst, top = rs.lst, rs.top
+    if value is not None:
+        raise OutOfReach("RevSlice.index of a value other than None")
+    arr = lst.arrays["v"]
+    k = z3.Int(ex.fresh_name("k!idx"))
+    exists = z3.Exists([k], z3.And(k >= 0, k <= top, z3.Select(arr, k) == NONE_CODE))
+    if not ex.fork(exists, "a None element exists in the slice"):
+        ex.raise_builtin(ValueError, "None is not in list")
+    j = z3.Int(ex.fresh_name("index"))
+    q = z3.Int(ex.fresh_name("k!idx"))
+    ex.assume(z3.And(j >= 0, j <= top, z3.Select(arr, top - j) == NONE_CODE))
+    ex.assume(z3.ForAll([q], z3.Implies(z3.And(q >= 0, q < j),
+                                        z3.Select(arr, top - q) != NONE_CODE)))
+    return Sym(j, INT)
 
 
 @method_of(("SymList", "append"))
